@@ -630,11 +630,14 @@ impl Writer {
           }
 
           let wait_until = self.history_buffer.last_change_sequence_number();
+          // Sequence numbers start from 1. If nothing has been written yet, there is
+          // nothing to acknowledge, and nobody to wait for.
+          let nothing_written = wait_until < SequenceNumber::new(1);
           let readers_pending: BTreeSet<_> = self
             .readers
             .iter()
             .filter_map(|(guid, rp)| {
-              if rp.qos().is_reliable() && rp.all_acked_before <= wait_until {
+              if rp.qos().is_reliable() && !nothing_written && rp.all_acked_before <= wait_until {
                 Some(*guid)
               } else {
                 None
